@@ -46,21 +46,17 @@ def mkField (sh : Shadow) (d : Nat) (isNew : Bool) (f : FInfo) (top : Bool) : Fi
 def mkEmbed (sh : Shadow) (d : Nat) (n ty : String) (p : Bool) : Field :=
   { name := n, ptype := ty, depth := d, isPtr := p, isEmbeded := true, isShadowed := sh d n }
 
-/-- pre-order walk below the top level: `extractStructFields` / `expandIfStruct` (go/types level:
-    `_`-prefixed and `new:"-"` fields skipped, no directives, the `new` mark is inherited from the
-    top-level embed) -/
-def walkNested (sh : Shadow) (inh : Bool) (d : Nat) : Tree → List Field
+/-- pre-order walk = `extractTopFiels` (top = true: AST level, own `new` marks, `def=` parsed) and
+    `extractStructFields` / `expandIfStruct` (top = false: go/types level, the mark is inherited from
+    the top-level embedded field, no directives). `_`-prefixed and `new:"-"` fields are skipped. -/
+def walk (sh : Shadow) (top : Bool) (inh : Bool) (d : Nat) : Tree → List Field
   | .nil => []
-  | .field f rest => (if f.skip then [] else [mkField sh d inh f false]) ++ walkNested sh inh d rest
-  | .embed n ty p _ body rest =>
-    mkEmbed sh d n ty p :: (walkNested sh inh (d + 1) body ++ walkNested sh inh d rest)
-
-/-- top level: `extractTopFiels` (AST level: `_`-prefixed and `new:"-"` fields skipped, own marks) -/
-def walkTop (sh : Shadow) : Tree → List Field
-  | .nil => []
-  | .field f rest => (if f.skip then [] else [mkField sh 0 f.newMark f true]) ++ walkTop sh rest
+  | .field f rest =>
+    (if f.skip then [] else [mkField sh d (if top then f.newMark else inh) f top]) ++ walk sh top inh d rest
   | .embed n ty p nm body rest =>
-    mkEmbed sh 0 n ty p :: (walkNested sh nm 1 body ++ walkTop sh rest)
+    mkEmbed sh d n ty p :: (walk sh false (if top then nm else inh) (d + 1) body ++ walk sh top inh d rest)
+
+def walkTop (sh : Shadow) (t : Tree) : List Field := walk sh true false 0 t
 
 /-- `g.hasNew`: some top-level member carries the mark (tested before the skip filter) -/
 def hasNewTop : Tree → Bool
